@@ -15,10 +15,14 @@ func init() {
 			"and 3-10 steps, each = 0-3 environment moves (boot, exit with/without finalizing, set Running, priority 0/restore, cancel, external requeue, poll, quota toggle, hold/drain/run, instance vanishes, lock failure, probe of an unknown worker, killed process exits; " +
 			"plus a late discovery of processes between the scheduler's Running() snapshot and its kill-before-start guard) followed by the REAL runQueue() or sync() on test.Queue and a recording model pool; " +
 			"non-trivial = the scheduler called StartContainer or KillContainer; distinct = (#containers, #workers, outcome flags, set of environment moves that applied). " +
+			"(a') stream realq: the same scheduler code on the REAL container.Queue over a stub Arvados API (in-memory container table: list with the queue's filters, lock, unlock, cancel, get), where one list response of a poll can be held between " +
+			"'the API produced it' and 'Queue.Update applies it' while scheduler passes (locking/unlocking/cancelling through the queue), users, other dispatchers and crunch-run processes change containers; judged: S2, and R1 = no StartContainer for a container " +
+			"that is not Locked by this dispatcher in the API because of this dispatcher's own unlock/cancel, R2 = no start after a successful Unlock/Cancel without a fresh successful Lock. " +
 			"(b) stream e2e-C14: case = one end-to-end run (50-100 containers quick, up to 500 thorough) of the real scheduler + real worker.Pool over loopback SSH against the stub cloud with a PRNG fault schedule " +
 			"(per-VM slow boot / never boots / broken-after / crunch-run missing / reports broken / crash rate / arv-mount deadlock / unkillable; destroy errors, create and list rate limits, quota error in thorough), " +
 			"VMs that are slow over SSH (crunch-run --detach needs 5-15 ms before the process exists, crunch-run --list answers late with the snapshot taken at arrival), queue poll interval 5/20/50 ms (queue cache lagging the API), " +
-			"instance types needed by one or two containers only whose first Create fails, " +
+			"instance types needed by one or two containers only whose first Create fails, operator kills of BUSY instances through the management API followed by lingering destroy failures and a cancel of the container, " +
+			"instances with a temporary outage longer than TimeoutProbe, instances that report broken while busy and then stop answering, " +
 			"API changes while containers run (cancel, priority 0, requeue), operator hold/drain, late containers, and zero or one dispatcher kill+restart (0-2 in thorough); " +
 			"stream e2e-C14-slowssh: fault-free runs in which every VM is slow over SSH and the queue is polled every 5 ms; " +
 			"non-trivial = at least one crunch-run start; distinct = (size, restarts, destroy error rate, set of VM kinds that occurred)",
